@@ -25,7 +25,7 @@ TYPES = {"i8": (8, True), "u8": (8, False), "i16": (16, True), "u16": (16, False
          "i32": (32, True), "u32": (32, False), "i64": (64, True), "u64": (64, False)}
 SIRANGE = {0: ("i32", 0, 0), 1: ("i32", 0, 5), 2: ("i32", -4, 3), 3: ("i32", -6, -2), 4: ("u64", 2, 7), 5: ("i16", 32760, 32767),
            6: ("u8", 250, 255), 7: ("i64", 4, 4), 8: ("u32", 0, 1), 9: ("i8", -128, -120)}
-SWITCHR = {0: (0, 0), 1: (0, 4), 2: (2, 7), 3: (-3, 2)}
+SWITCHR = {0: (0, 0), 1: (0, 4), 2: (2, 7), 3: (-3, 2), 4: (2, 5)}
 BITN = ["eq", "ne", "lt", "le", "gt", "ge"]
 
 
@@ -309,23 +309,52 @@ def san_expected_overflow(case):
     return ir_diff_overflows(ty, f + i, f + j)
 
 
+SIR_T = {"i32": "int", "u64": "std::size_t", "i16": "short", "u8": "unsigned char", "i64": "long", "u32": "unsigned", "i8": "signed char"}
+# feature groups of the impl driver: (group name, source file, entry point, extra flags); each is its own translation unit
+def groups():
+    g = [("iter1", "impl.cc", "c16_iter_case_1", ["-DC16_PART=1"]), ("iter2", "impl.cc", "c16_iter_case_2", ["-DC16_PART=2"]),
+         ("iter3", "impl.cc", "c16_iter_case_3", ["-DC16_PART=3"]), ("misc", "impl.cc", "c16_misc_case", ["-DC16_PART=4"]),
+         ("hybrid", "impl.cc", "c16_hy_case", ["-DC16_PART=5"]), ("extra", "impl2.cc", "c16_extra_case", [])]
+    for i, (t, f, to) in SIRANGE.items():
+        g.append(("sir%d" % i, "impl3.cc", "c16_sirange_%d" % i,
+                  ["-DC16_SIR_FN=c16_sirange_%d" % i, "-DC16_SIR_T=%s" % SIR_T[t], "-DC16_SIR_TO=(%d)" % to, "-DC16_SIR_FROM=(%d)" % f]))
+    return g
+
+
 def build(ctx, san=True):
+    """Every feature group is compiled on its own; a group that does not compile against ctx.repo becomes the violation `compile:<group>`
+    (no failing input) and is replaced by a stub whose cases print NOCOMPILE, so that all other groups still run."""
+    from concurrent.futures import ThreadPoolExecutor
     # compile probe: are ArrayListIterator / ConstArrayListIterator interoperable for <,<=,>,>=,- ?
     rc, out = V.sh(["g++", "-std=gnu++20", "-fsyntax-only", "-w", "-DHAVE_CONFIG_H", "-I" + os.path.join(V.VERIF, "harness", "common", "include"),
                     "-I" + ctx.repo, os.path.join(H, "probe_al_mixed.cc")], timeout=120)
     mixed = rc == 0
     flags = ["-DC16_AL_MIXED"] if mixed else []
-    # harness/C16/impl.cc is compiled in five parts in parallel (helper local to this check: V.cxx with -c, then a link step)
-    src = os.path.join(H, "impl.cc")
     variants = [("impl", dict(opt="-O2"))] + ([("impl_san", dict(san=True))] if san else [])
-    jobs = []
-    for name, kw in variants:
-        for k in range(1, 6):
-            jobs.append(dict(srcs=[src], out=ctx.path("%s.p%d.o" % (name, k)), repo_srcs=[], flags=flags + ["-g0", "-c", "-DC16_PART=%d" % k], **kw))
-        jobs.append(dict(srcs=[os.path.join(H, "impl2.cc")], out=ctx.path("%s.p6.o" % name), repo_srcs=[], flags=flags + ["-g0", "-c"], **kw))
-    V.cxx_many(ctx, jobs)
-    outs = V.cxx_many(ctx, [dict(srcs=[ctx.path("%s.p%d.o" % (name, k)) for k in range(1, 7)], out=ctx.path(name), flags=["-g0"], **kw)
-                            for name, kw in variants])
+    failed = {}
+
+    def one(name, kw, grp, srcf, fn, gflags):
+        obj = ctx.path("%s.%s.o" % (name, grp))
+        try:
+            V.cxx(ctx, [os.path.join(H, srcf)], obj, repo_srcs=[], flags=flags + ["-g0", "-c"] + gflags, timeout=600, **kw)
+        except V.BuildError as e:
+            failed.setdefault(grp, str(e))
+            V.cxx(ctx, [os.path.join(H, "stub.cc")], obj, repo_srcs=[], flags=["-g0", "-c", "-DC16_STUB_FN=%s" % fn], **kw)
+        return obj
+
+    objs = {}
+    with ThreadPoolExecutor(max_workers=V.NCPU) as ex:
+        futs = [(name, ex.submit(one, name, kw, *g)) for name, kw in variants for g in groups()]
+        for name, kw in variants:
+            futs.append((name, ex.submit(lambda n=name, k=kw: V.cxx(ctx, [os.path.join(H, "main.cc")], ctx.path("%s.main.o" % n), repo_srcs=[], flags=["-g0", "-c"], **k))))
+        for name, f in futs:
+            objs.setdefault(name, []).append(f.result())
+    outs = V.cxx_many(ctx, [dict(srcs=objs[name], out=ctx.path(name), flags=["-g0"], **kw) for name, kw in variants])
+    for grp, log in sorted(failed.items()):
+        msg = [l for l in log.split("\n") if "error" in l][:6]
+        ctx.violation("compile:%s" % grp, {"broken": "corr:C16/compile:%s (this group of the impl driver no longer compiles against the tree; its cases are not run)" % grp,
+                                            "compiler": msg, "log": log[-3000:]}, found_input=False)
+    ctx.coverage["groups_not_compiling"] = sorted(failed)
     return mixed, outs[0], (outs[1] if san else None), out
 
 
@@ -385,10 +414,13 @@ def run(ctx):
     ctx.log("generated %d cases" % len(cases))
     mo = V.run_cases(ctx, [model], cases, tag="model", timeout=600)
     io = V.run_cases(ctx, [impl], cases, tag="impl", timeout=60 if ctx.quick else 300)
-    classes, nviol, ndis, per_sig = {}, 0, 0, {}
+    classes, nviol, ndis, per_sig, nnc = {}, 0, 0, {}, 0
     for c, m, a in zip(cases, mo, io):
         cl = "%s:%s" % case_class(c); classes[cl] = classes.get(cl, 0) + 1
         mm, _, spec = m.partition(" | ")
+        if a == "NOCOMPILE":          # group reported as compile:<group>
+            nnc += 1
+            continue
         rej = oracle_all(c, a, spec)
         if rej:
             nviol += 1
@@ -432,7 +464,7 @@ def run(ctx):
                 "seeded IndexedIterator op sequences; integral ranges at type limits; transformed/sparse ranges over random contents; hybrid helpers static vs dynamic; "
                 "non-trivial = container non-empty / argument list non-empty; distinct = distinct case lines" % (6 if ctx.quick else 8),
         "samples": cases[:2] + cases[len(cases) // 2: len(cases) // 2 + 2] + cases[-2:],
-        "class_distribution": classes, "impl_model_disagreements": ndis, "oracle_rejections": nviol, "oracle_rejections_by_signature": per_sig,
+        "class_distribution": classes, "impl_model_disagreements": ndis, "cases_in_groups_not_compiling": nnc, "oracle_rejections": nviol, "oracle_rejections_by_signature": per_sig,
         "sanitizer_cases": len(clean), "sanitizer_differences": nsan, "predicted_difference_overflow_cases": len(ovf),
         "predicted_difference_overflow_confirmed_by_ubsan": nov, "arraylist_mixed_constness_ordering_compiles": mixed,
         "exhaustive": False, "exhaustive_scope": "all pairs of positions and all in-range steps for the listed kinds and sizes (not exhaustive over contents/types)", "traces_validated_against_impl": len(cases),
